@@ -245,7 +245,7 @@ func menuFor(c Case) []Query {
 	var out []Query
 	for _, sl := range multi {
 		for _, r := range rs {
-			for iv := range intervals {
+			for iv := 0; iv < mainIntervals; iv++ {
 				for _, x := range cgs {
 					out = append(out, Query{Sels: sl, Range: r, Ivl: iv, Cond: x.cond, GB: x.gb})
 				}
@@ -253,7 +253,7 @@ func menuFor(c Case) []Query {
 		}
 	}
 	if len(all) > 1 {
-		for iv := range intervals {
+		for iv := 0; iv < mainIntervals; iv++ {
 			for _, x := range cgs {
 				out = append(out, Query{Sels: all, Range: 0, Ivl: iv, Cond: x.cond, GB: x.gb})
 			}
